@@ -48,7 +48,7 @@ PLAN = {
     "C17": {"runs": [eng("inval", "c17", 90, 900)]},
     "C07": {"runs": [seq("c07", 240, 6000), seq("c11", 120, 1500)],
             "explanation": "refinement of the slot-keyed store to a plain map with per-entry expiry, for every hash function and every op sequence"},
-    "C09": {"runs": [seq("c09", 200, 4000), eng("fo", "c04", 150, 3000), eng("inval", "c15", 100, 1000)]},
+    "C09": {"runs": [seq("c09", 200, 4000), eng("fo", "c04", 150, 3000), eng("inval", "c15", 100, 1000), eng("linz", "c08", 500, 6000)]},
     "C10": {"runs": [seq("c10", 200, 5000), eng("fo", "c06", 120, 2000), seq("c11", 120, 1500)],
             "trusted_extra": ["float64 evaluation of the jitter product is idealised by exact rationals; the correspondence allows |T|*2^-40+1 ns slack"]},
     "C11": {"runs": [seq("c11", 200, 3000), eng("xfer", "c13", 150, 1500), eng("linz", "c08cleanup", 800, 8000), eng("conserve", "c11all", 300, 4000)]},
